@@ -383,11 +383,21 @@ def check_case(ctx, case):
     # ---- clause 1 again: re-encoding after the taxa on the leaves changed -------------------------------
     # (a tree that was encoded before must not keep anything from the old encoding)
     t3 = shapes.build_tree(spec, ns, taxa, is_rooted=rooted_flag)
-    t3.encode_bipartitions(suppress_unifurcations=False, collapse_unrooted_basal_bifurcation=False)
+    # (the first encoding uses the drawn mutability flag: mutable bipartitions are objects that a later encoding might re-use)
+    t3.encode_bipartitions(suppress_unifurcations=False, collapse_unrooted_basal_bifurcation=False, is_bipartitions_mutable=opts["mut"])
     pre3, _ = snapshot(t3)
     lv = pre3.leaves()
     k = 1 + case["encperm"] % max(1, n - 1) if n > 1 else 0
-    if case["A"] % 2 == 0 or n < 2:
+    pruned3 = False
+    if case["A"] % 3 == 2 and n >= (4 if not rooted else 2):
+        # the leaf set shrinks: the leaf holding the LOWEST bit on the tree (or a drawn one) is pruned
+        low = min(lv, key=lambda i: bits[int(pre3.taxon[i][1:])])
+        victim = low if case["B"] % 2 == 0 else lv[case["encperm"] % len(lv)]
+        t3.prune_taxa([pre3.obj[victim].taxon])
+        bits3 = bits
+        pruned3 = True
+        ctx.cls("reencode:leaf_pruned:%s" % ("lowest_bit" if victim == low else "drawn"))
+    elif case["A"] % 2 == 0 or n < 2:
         # rotate the taxa over the leaves
         old = [pre3.obj[i].taxon for i in lv]
         for j, i in enumerate(lv):
@@ -406,7 +416,7 @@ def check_case(ctx, case):
         t3.migrate_taxon_namespace(ns3)
         ctx.cls("reencode:namespace_migrated")
     now3, problems3 = snapshot(t3)
-    if not problems3 and now3.leafset() == rt1.leafset():
+    if not problems3 and (now3.leafset() == rt1.leafset() or pruned3):
         encode_and_check(ctx, t3, now3, bits3, rooted, opts, "T3(re-encoded)")
 
     # ---- clause 4b: predicates on directly constructed bipartitions -----------
